@@ -9,7 +9,7 @@ import os
 import sys
 import threading
 
-WHOLE = ('_config_str', 'operative_config_str', 'singleton_value')
+WHOLE = ('_config_str', 'operative_config_str', 'singleton_value', '_is_literally_representable', '_format_value')
 SHARED = ('_OPERATIVE_CONFIG', '_OPERATIVE_CONFIG_LOCK', '_SINGLETONS', '_SINGLETONS_LOCK')
 
 
